@@ -17,7 +17,7 @@ theorem key_adding_moves (c : Cfg) (hR : 0 < c.R) (m : Map) (e : Entry) (o : Orc
       r.2.cost.moved = min c.R ol.ents.length ∧ pending r.1 = ol.ents.length - min c.R ol.ents.length ∧
       (ol.ents.length ≤ c.R ↔ r.1.lo = none)) :=
   (Map.insert_spec c hR m e o h).mono (fun r hs => by
-    obtain ⟨_, _, _, _, _, _, _, _, h9⟩ := hs
+    obtain ⟨_, _, _, _, _, _, _, _, h9, _⟩ := hs
     obtain ⟨a, b, d⟩ := h9 ol hol hadd
     by_cases hle : ol.ents.length ≤ c.R
     · have := b hle
